@@ -567,6 +567,10 @@ def report():
     return ('report', enriched())
 
 
+def render(fn):
+    return ('render', fn())
+
+
 def root():
     return dds.keep('/en', {kept})
 """
@@ -578,7 +582,8 @@ def pure_strategy():
     return st.fixed_dictionaries({
         "pure": st.just(True),
         "inner": st.sampled_from(["read", "mid"]),
-        "kept": st.sampled_from(["enriched", "report", "read"]),
+        # render_ho: the loading function is handed by name to the kept function, which calls it
+        "kept": st.sampled_from(["enriched", "report", "read", "render_ho", "render_ho"]),
         "store": st.sampled_from(STORES).map(list),
         "edits": st.lists(st.sampled_from(["live", "live", "reload", "none", "revert_live"]), min_size=1, max_size=4),
     })
@@ -602,7 +607,8 @@ def check_pure(case, ev=None, scratch=None):
         mt = [1600000000]
 
         def files():
-            return {"pk/__init__.py": "", "pk/m0.py": PURE_SRC.format(vs=vs, inner=case["inner"], kept=case["kept"])}
+            kept = case["kept"] if case["kept"] != "render_ho" else "render, " + case["inner"]
+            return {"pk/__init__.py": "", "pk/m0.py": PURE_SRC.format(vs=vs, inner=case["inner"], kept=kept)}
 
         for rel, content in files().items():
             pth = os.path.join(root_dir, rel)
@@ -615,7 +621,7 @@ def check_pure(case, ev=None, scratch=None):
             src = ("prod", vs)
             inner = src if case["inner"] == "read" else ("mid", src)
             en = ("bump", inner)
-            return {"enriched": en, "report": ("report", en), "read": src}[case["kept"]]
+            return {"enriched": en, "report": ("report", en), "read": src, "render_ho": ("render", inner)}[case["kept"]]
 
         def evaluate(step):
             r = w.call("eval", module="pk.m0", func="mk", style="eval")
